@@ -509,7 +509,7 @@ Definition log_equiv veq (a b : ulog) : bool :=
 (* (JDBC code, Go kind) pairs the image builder can emit: MySQLStrToJavaType of the
    column's DATA_TYPE x the scan target GetScanSlice picks for it *)
 Definition emit_pairs : list (Z * kind) :=
-  [(-7, KInt); (-6, KInt); (5, KInt); (4, KInt); (-5, KInt); (-4, KInt);
+  [(-7, KInt); (-6, KInt); (5, KInt); (4, KInt); (-5, KInt); (91, KInt) (* YEAR *);
    (3, KFloat); (8, KFloat); (7, KFloat);
    (91, KTime); (92, KTime); (93, KTime);
    (12, KStr); (1, KStr); (-1, KStr);
